@@ -126,7 +126,7 @@ def run(ctx):
     for r in R:
         if r[1] in ("gen-ok", "gen-ill", "progen") and "compile:err:parser" not in r[3]:
             distinct.add((r[1], r[2]))
-        elif r[1] in ("nest", "layout", "artifact", "known-artifact-core-ir"):
+        elif r[1] in ("nest", "layout", "artifact", "known-artifact-core-ir", "occurs"):
             distinct.add((r[1], r[4]))
     cov = {
         "evaluations": n_cases, "distinct_nontrivial": len(distinct),
@@ -140,6 +140,9 @@ def run(ctx):
                        "random op sequences; that no entry point panics, aborts, overflows the stack or hangs, that every Err carries an error diagnostic and "
                        "every diagnostic range lies inside the text is searched over the streams below, each case in a child process with a CPU-time watchdog",
         "cases_per_stream": per_stream, "outcomes_per_stream": outcomes,
+        "occurs_stream": {"cases": per_stream.get("occurs", 0),
+                          "ending_in_occurs_check_diagnostic": outcomes.get("occurs", {}).get("compile:occurs-check-diagnostic", 0),
+                          "gen_ill_with_occurs_check_diagnostic": outcomes.get("gen-ill", {}).get("compile:occurs-check-diagnostic", 0)},
         "generated_programs_accepted": {"accepted": accepted, "of": per_stream.get("gen-ok", 0)},
         "generator_features_used_in_n_programs": feats, "nesting_forms_max_depth": nest, "layout_features": layout, "artifact_mutations": art,
         "chunks_abandoned": len(ABANDONED),
